@@ -165,7 +165,10 @@ def render(e, mode):
 
 def add_nots(rng, e, p):
     if e[0] == "id":
-        return ("not", e) if rng.random() < p else e
+        r = rng.random()
+        if r < p * 0.25:
+            return ("not", ("not", e))          # double negation is NOT the identity (missing -> true)
+        return ("not", e) if r < p else e
     if e[0] == "not":
         return ("not", add_nots(rng, e[1], p))
     t = (e[0], add_nots(rng, e[1], p), add_nots(rng, e[2], p))
@@ -194,7 +197,9 @@ def run(ck):
     for _ in range(800 if thorough else 250):
         k = rng.randint(1, 7)
         soups.append(" ".join(rng.choice(soup_words) for _ in range(k)))
-    soups += ["A and", "and A", "A or or B", "not", "not not A", "not (not A)", "(A", "A)", "((A))", "()", "A and (B", "A B",
+    soups += ["not not A", "not not not A", "not ( not A )", "B and not not A", "not ( not A ) or B", "not not ( A and B )", "not not A and not not B",
+              "not ( not ( not A ) )", "( not not A ) or B",
+              "A and", "and A", "A or or B", "not", "not not A", "not (not A)", "(A", "A)", "((A))", "()", "A and (B", "A B",
               "all(A) and of(B, 2)", "of(A, 0) or not all(B)", "int(x) == 1 and A", "A and int(x) >= 1", "1 == int(x)",
               "int(x) == flt(y)", "str(x) == str(y) or A", "not int(x) == 1", "A and 1", "A or not(B)", "flt(x) > 0.5 and not A",
               "A and\tB", "A\tand B", "A  and   B", " A", "A ", "A and B ", "andA", "A andB", "A and(B)", "not(A)", "not (A)"]
@@ -274,6 +279,25 @@ def run(ck):
     for c in soup_cases:
         evals += 1
         ck.count("cond:soup")
+        words = ref_tokens(c["s"])
+        # only texts in canonical spacing (every token, parentheses included, separated by one space), where the
+        # reference tokeniser of this script and the crate's keyword rules (`not(` is a modifier, `and(` is no keyword) agree
+        if all(w in ("A", "B", "C", "D", "and", "or", "not", "(", ")") for w in words) and " ".join(words) == c["s"] \
+                and not c["s"].endswith(("and", "or", "not")):
+            try:
+                t = ref_parse(words)
+            except PErr:
+                continue
+            got = common.strip_extra(impl[c["id"]])
+            exp = "(%d ok %s)" % (c["id"], ref_sexp(t))
+            ck.count("cond:soup_in_grammar")
+            if got != exp:
+                if len(direct_failed) < 6:
+                    ck.violation({"property": "C05", "kind": "direct",
+                                  "what": "the parsed condition is not the tree the grammar assigns",
+                                  "condition": c["s"], "expected": exp, "crate": got,
+                                  "replay_case": {"k": "cond", "id": c["id"], "s": c["s"]}})
+                direct_failed.add(c["id"])
     for c in rule_cases:
         x = lib.parse_sexp(common.strip_extra(impl[c["id"]]))
         res = None
